@@ -88,6 +88,16 @@ def gen_cases(tier, seed):
         for S in (SF if tier == "thorough" else [SF[(seed + j_) % 4], SF[(seed + j_ + 2) % 4]]):
             cases.append({"id": "hollowplugin/%s@%s" % (var, S), "kind": "hollowplugin", "variant": var, "S": S, "k": len(cases),
                           "seed": seed, "group": "hp-" + var, "lane": "plain"})
+    # form factors given other shape parameters (core.reparameterize), used as P
+    for j_ in range(len(REPARAM_P)):
+        for S in (SF if tier == "thorough" else [SF[(seed + j_) % 4], SF[(seed + j_ + 1) % 4]]):
+            cases.append({"id": "reparam/%d@%s" % (j_, S), "kind": "reparam", "j": j_, "S": S, "k": len(cases), "seed": seed,
+                          "group": "rp-%d" % j_, "lane": "plain"})
+    # the SasView-style P@S object asked for the beta correction on 2-D data
+    for j_, P in enumerate(["sphere", "core_shell_sphere", "vesicle"]):
+        S = SF[(seed + j_) % 4]
+        cases.append({"id": "svbeta2d/%s@%s" % (P, S), "kind": "svbeta2d", "P": P, "S": S, "k": len(cases), "seed": seed,
+                      "group": "sv-" + P, "lane": "plain"})
     # a pure-python form factor (always double) with a compiled structure factor in another precision
     for P in ["poly_gauss_coil", "broad_peak", "power_law"]:
         for S in (SF if tier == "thorough" else SF[:2] + [SF[(seed + len(P)) % 4]]):
@@ -249,7 +259,123 @@ def run_mixed(case, rec):
     rec.set_shape(("mixed", P, S, dt), nontrivial=bool(np.any(np.abs(Sq - 1) > 1e-3)))
 
 
+REPARAM_P = [
+    # form factors given other shape parameters (as many as the base model has): (base, new parameters, translation, the
+    # same translation in python)
+    ("ellipsoid", [["vol", "Ang^3", 6.7e5, [0, np.inf], "volume", "particle volume"],
+                   ["aspect", "", 2.0, [0.1, 10.0], "volume", "polar:equatorial"]],
+     "re = cbrt(vol/(M_4PI_3*aspect))\nradius_equatorial = re\nradius_polar = aspect*re",
+     lambda p: {"radius_equatorial": (p["vol"]/(4.0*math.pi/3.0*p["aspect"]))**(1.0/3.0),
+                "radius_polar": p["aspect"]*(p["vol"]/(4.0*math.pi/3.0*p["aspect"]))**(1.0/3.0)}),
+    ("cylinder", [["len2", "Ang", 300.0, [0, np.inf], "volume", "length"],
+                  ["slender", "", 0.1, [0.01, 1.0], "volume", "radius:length"]],
+     "length = len2\nradius = slender*len2",
+     lambda p: {"length": p["len2"], "radius": p["slender"]*p["len2"]}),
+    ("core_shell_sphere", [["outer", "Ang", 70.0, [0, np.inf], "volume", "outer radius"],
+                           ["corefrac", "", 0.8, [0.0, 1.0], "volume", "core radius:outer radius"]],
+     "rc_ = corefrac*outer\nradius = rc_\nthickness = outer - rc_",
+     lambda p: {"radius": p["corefrac"]*p["outer"], "thickness": p["outer"] - p["corefrac"]*p["outer"]}),
+]
+
+
+def run_reparam_product(case, rec):
+    """P given other shape parameters through core.reparameterize, then P@S: the effective radius handed to S and reported,
+    and the intensity, are those of the base form factor at the translated parameters."""
+    from sasmodels import core as sascore, direct_model, product
+    base, new, text, pyt = REPARAM_P[case["j"]]
+    S, k = case["S"], case["k"]
+    rng = core.rng_for(case["seed"], PROP, "reparam", case["j"], S, k)
+    binfo = sas.info(base)
+    pinfo = sascore.reparameterize(binfo, new, text, name="rtm07_rep_%d" % case["j"])
+    info = product.make_product_info(pinfo, sas.info(S))
+    model = sascore.build_model(info, platform="dll")
+    Bm, Sm = sas.build(base), sas.build(S)
+    modes = binfo.radius_effective_modes or []
+    q = [np.exp(rng.uniform(math.log(0.003), math.log(0.25), 5))]
+    kern, bk, sk = model.make_kernel(q), Bm.make_kernel(q), Sm.make_kernel(q)
+    for rep in range(4):
+        newp = {n_[0]: float(n_[2]*rng.uniform(0.7, 1.4)) for n_ in new}
+        for n_ in new:
+            newp[n_[0]] = float(min(max(newp[n_[0]], n_[3][0] + 1e-3), n_[3][1] - (1e-3 if np.isfinite(n_[3][1]) else 0)))
+        keep = {p_.name: float(rng.uniform(0.5, 6.0)) if p_.type == "sld" else float(p_.default)
+                for p_ in pinfo.parameters.kernel_parameters if p_.name not in newp and p_.type != "orientation"}
+        sp = s_pars(S, rng)
+        scale, bg = float(rng.uniform(0.5, 2)), float(rng.uniform(0, 0.1))
+        mode = 1 + (rep + k) % len(modes)
+        beta = (rep // 2) % 2 if binfo.have_Fq else 0
+        cp = dict(keep, **newp)
+        cp.update(sp)
+        cp.pop("radius_effective", None)
+        cp.update(scale=scale, background=bg, radius_effective_mode=mode, structure_factor_mode=beta)
+        I = np.asarray(direct_model.call_kernel(kern, dict(cp)), float)
+        res = kern.results() if callable(getattr(kern, "results", None)) else {}
+        bp = dict(keep, **pyt(newp))
+        F1, F2, R, Vs, ratio = direct_model.call_Fq(bk, dict(bp, scale=1.0, background=0.0, radius_effective_mode=mode))
+        vf = sp["volfraction"]
+        # (S is evaluated at the reported effective radius when that agrees with the base model's to 1e-9 -- checked
+        # below: hayter_msa turns a last-bit difference of its inputs into visible differences)
+        rep_R = res.get("radius_effective")
+        R_S = float(rep_R) if rep_R is not None and abs(float(rep_R) - float(R)) <= 1e-9*abs(float(R)) else float(R)
+        Sq = np.asarray(direct_model.call_kernel(sk, dict(sp, scale=1.0, background=0.0, radius_effective=R_S,
+                                                          volfraction=vf*float(ratio))), float)
+        F1, F2 = np.asarray(F1, float), np.asarray(F2, float)
+        exp = scale*vf/float(Vs)*(F2 + F1*F1*(Sq - 1.0) if beta else F2*Sq) + bg
+        ctx = {"P": "%s reparameterised: %s" % (base, text), "S": S, "pars": cp, "base_pars": bp, "mode": mode,
+               "mode_name": modes[mode - 1], "beta": beta, "q": q[0]}
+        ok = core.close(I, exp, 1e-8, 1e-10*float(np.max(np.abs(exp))))
+        rec.check("equals_documented_combination", ok,
+                  None if ok else dict(ctx, observed=I, expected=exp, R_eff_of_base_model=float(R)), key="C07/reparameterised-P")
+        if rep_R is not None:
+            okr = abs(float(rep_R) - float(R)) <= 1e-9*abs(float(R))
+            rec.check("reported_results_belong_to_their_evaluation", okr,
+                      None if okr else dict(ctx, reported_radius_effective=float(rep_R), expected=float(R)),
+                      key="C07/reparameterised-P")
+        rec.bucket("P:reparameterised", "mode>0", "beta:%d" % beta)
+        rec.set_shape(("reparam", case["j"], S, mode, beta), nontrivial=bool(np.any(np.abs(Sq - 1) > 1e-3)))
+
+
+def run_sasview_beta2d(case, rec):
+    """The SasView-style P@S object asked for the beta correction on 2-D data: the request is refused (the library does not
+    offer it), or what comes back is the beta-corrected intensity -- which for a P without orientation is the 1-D answer
+    of the same object at |q| -- never the plain P*S pattern under the beta switch."""
+    from sasmodels import sasview_model
+    P, S = case["P"], case["S"]
+    rng = core.rng_for(case["seed"], PROP, "svbeta2d", P, S)
+    m = sasview_model.MultiplicationModel(sasview_model._make_standard_model(P)(), sasview_model._make_standard_model(S)())
+    for kk, vv in s_pars(S, rng).items():
+        if kk in m.params and kk != "radius_effective":
+            m.setParam(kk, vv)
+    m.setParam("scale", float(rng.uniform(0.5, 2)))
+    m.setParam("background", float(rng.uniform(0, 0.1)))
+    m.setParam("radius_effective_mode", 1)
+    m.cutoff = 0.0
+    qx = np.exp(rng.uniform(math.log(0.005), math.log(0.2), 5))*np.cos(0.6)
+    qy = qx*math.tan(0.6)
+    out = {}
+    for beta in (0, 1):
+        m.setParam("structure_factor_mode", beta)
+        one = np.asarray(m.evalDistribution(np.hypot(qx, qy)), float)
+        try:
+            two = np.asarray(m.evalDistribution([qx.copy(), qy.copy()]), float)
+        except NotImplementedError:
+            rec.bucket("sasview-2d-beta:refused")
+            rec.check("beta_2d_refused_or_exact", True)
+            continue
+        ok = core.close(two, one, 1e-9, 1e-11*float(np.max(np.abs(one))))
+        out[beta] = one
+        rec.check("beta_2d_refused_or_exact" if beta else "equals_documented_combination", ok,
+                  None if ok else {"P": P, "S": S, "entry": "SasView MultiplicationModel.evalDistribution([qx, qy])",
+                                   "structure_factor_mode": beta, "returned": two, "same_object_1d_at_|q|": one},
+                  key="C07/sasview-2d-beta-not-refused" if beta else None)
+        rec.bucket("sasview-2d:beta-%d-evaluated" % beta)
+    rec.set_shape(("svbeta2d", P, S), nontrivial=True)
+
+
 def run_case(case, rec):
+    if case.get("kind") == "svbeta2d":
+        return run_sasview_beta2d(case, rec)
+    if case.get("kind") == "reparam":
+        return run_reparam_product(case, rec)
     if case.get("kind") == "mixed":
         return run_mixed(case, rec)
     if case.get("kind") == "hollowplugin":
